@@ -34,7 +34,11 @@ Record world3 := { w3_p : roots; w3_ss : N -> sess3 }.
 Inductive stmt3 :=
 | SBase (st : stmt)
 | SAdd                          (* CALL DOLT_ADD('-A') *)
-| SDoltCommit (all : bool).     (* CALL DOLT_COMMIT('-m', ..) / ('-a', '-m', ..) *)
+| SDoltCommit (all : bool)      (* CALL DOLT_COMMIT('-m', ..) / ('-a', '-m', ..) *)
+| SReadAs (k : N).              (* 0: SELECT .. AS OF 'HEAD'   1: AS OF '<branch>'   2: `db/<branch>`.t   3: AS OF 'STAGED'
+                                   (doltdb.go getHashFromCommitSpec resolves HEAD / the branch against the transaction's
+                                   noms root: the HEAD root the transaction started from; the revision database and
+                                   STAGED / WORKING are the session's own working set) *)
 
 Inductive ckind := KPlain | KDolt.
 
@@ -123,6 +127,12 @@ Section Universe.
         let s1 := ensure3 s (w3_p w) in
         (obs_ok, None, {| w3_p := w3_p w;
                           w3_ss := upd (w3_ss w) i {| t_active := true; t_start := t_start s1; t_staged := t_work s1; t_work := t_work s1 |} |})
+      | SReadAs k =>
+        let s1 := ensure3 s (w3_p w) in
+        let t := if k <? 2 then r_head (t_start s1) else if k =? 2 then t_work s1 else t_staged s1 in
+        (obs_rows (dump U t), None,
+         {| w3_p := w3_p w;
+            w3_ss := upd (w3_ss w) i {| t_active := true; t_start := t_start s1; t_staged := t_staged s1; t_work := t_work s1 |} |})
       | SDoltCommit all =>
         let s1 := ensure3 s (w3_p w) in
         let S' := if all then t_work s1 else t_staged s1 in
